@@ -34,7 +34,7 @@ WATCHDOG_S = {"quick": 900, "thorough": 4 * 3600}
 
 WORDS = [u"alpha", u"beta", u"x", u"Ω-mega", u"naïve café", u"1 2", u"a:b", u"<p>", u"it's", u"(paren)", u"日本", u"e=mc2",
          u"tab\there", u"quote\"d", u"semi;colon", u"under_score", u"Given", u"Scenario", u"@at", u"#hash", u"|pipe"]
-SAFE_TAGS = [u"a", u"b", u"wip", u"x.y", u"slow-1", u"k=v", u"t:3", u"Ünï", u"A"]
+SAFE_TAGS = [u"a", u"b", u"wip", u"x.y", u"slow-1", u"k=v", u"t:3", u"Ünï", u"A", u"issue#12", u"a@b"]
 
 
 def name_st(allow_empty=True, structural=False):
@@ -359,14 +359,15 @@ def check(case):
     if kind in ("doc", "alias"):
         text, facts = render_feature(feat)
         if case.get("crlf"):
-            text = text.replace(u"\n", u"\r\n")       # a file written on Windows: same document
+            # a file written on Windows (or, crlf == 2, with bare CR line terminators): same document
+            text = text.replace(u"\n", u"\r\n" if case["crlf"] is True or case["crlf"] == 1 else u"\r")
         model = parser.parse_feature(text, language=feat.get("lang"), filename="features/doc.feature")
         cmp_feature(Cmp(res, "parse_feature"), model, facts)
         if kind == "alias" or case.get("via_file"):
             # via a file with a '# language:' header (line numbers shift by one)
             text2, facts2 = render_feature(feat, language_header=True)
             if case.get("crlf"):
-                text2 = text2.replace(u"\n", u"\r\n")
+                text2 = text2.replace(u"\n", u"\r\n" if case["crlf"] is True or case["crlf"] == 1 else u"\r")
             fd, path = tempfile.mkstemp(suffix=".feature", prefix="vf-c04-", dir=scratch_dir())
             try:
                 with os.fdopen(fd, "wb") as f:
@@ -381,7 +382,7 @@ def check(case):
                 check_parser_reuse(res, model2, facts2, text2)
         classify(res, feat, facts, text)
         if case.get("crlf"):
-            res.label("line-endings:crlf")
+            res.label("line-endings:crlf" if case["crlf"] is True or case["crlf"] == 1 else "line-endings:cr")
         if kind == "alias":
             res.label("alias")
             res.nontrivial = True
@@ -622,16 +623,16 @@ def explore(rec):
     quick = rec.tier == "quick"
     rec.enum("all-languages-all-aliases", alias_enumeration())
     rec.hyp("random-documents", st.builds(lambda f, c: {"kind": "doc", "feature": f, "crlf": c}, feature_st(),
-                                          st.sampled_from([False, False, True])), 4000 if quick else 80000)
+                                          st.sampled_from([False, False, True, 2])), 4000 if quick else 80000)
     rec.hyp("random-documents-via-file", st.builds(lambda f, c: {"kind": "doc", "feature": f, "via_file": True, "crlf": c},
-                                                   feature_st(), st.sampled_from([False, True])),
+                                                   feature_st(), st.sampled_from([False, True, 2])),
             500 if quick else 8000)
     rec.hyp("partial-entry-points", partial_case(), 2000 if quick else 30000)
 
 
 def required_labels(tier):
     return ["rule", "outline>=2examples", "docstring", "escaped-pipe", "non-english", "noise", "and-but-star", "alias",
-            "via-file", "line-endings:crlf", "parser-reuse", "parser-reuse:non-english", "describe-roundtrip", "entry:steps", "entry:scenario", "entry:rule", "entry:tags"]
+            "via-file", "line-endings:crlf", "line-endings:cr", "parser-reuse", "parser-reuse:non-english", "describe-roundtrip", "entry:steps", "entry:scenario", "entry:rule", "entry:tags"]
 
 
 KNOWN_PREDICATES = {}
